@@ -209,16 +209,24 @@ func runC01(c *Ctx, r *Report) {
 	}
 	pureMerge(c, r, "R-C01.5")
 	r.Doc("R-C01.6", "Join computes the candidates, validates and applies in one critical section of the destination")
+	joinSingleSection(c, r, "R-C01.6", "an append completing in the window stays in the index but is lost from the heads (and is never propagated)")
+}
+
+// joinSingleSection: Join reads the destination, validates and applies inside one critical section (shared by
+// C01 and C16: a truncation computed from a stale difference keeps a set that no serial order produces).
+func joinSingleSection(c *Ctx, r *Report, rule, consequence string) {
+	p := c.P
+	join := p.FuncI("", "IPFSLog", "Join")
 	le := repoLockEngine(c)
 	split := false
 	for _, sp := range le.Splits {
 		if sp.Fn.Root() == orig(join) {
 			split = true
-			r.Violate("R-C01.6", r.Key("R-C01.6", join, "store-after-reopen", sp.Field), sp.Pos, "Join releases the destination's lock between computing the merge and storing "+sp.Field+": an append completing in the window stays in the index but is lost from the heads (and is never propagated)")
+			r.Violate(rule, r.Key(rule, join, "store-after-reopen", sp.Field), sp.Pos, "Join releases the destination's lock between computing the merge and storing "+sp.Field+": "+consequence)
 		}
 	}
 	if !split {
-		r.Hold("R-C01.6", r.Key("R-C01.6", join, "single-region", ""), join.Body.Pos(), true, "all guarded reads and writes of Join lie in one critical section")
+		r.Hold(rule, r.Key(rule, join, "single-region", ""), join.Body.Pos(), true, "all guarded reads and writes of Join lie in one critical section")
 	}
 }
 
